@@ -90,6 +90,27 @@ for v, r in runs.items():
             violations[sig]["count"] += viol["count"]
             violations[sig]["variants"].append(v)
 
+# C19: the per-section transcript hashes must be identical in every build variant
+for k, val in list(cover.items()):
+    if k.startswith("digest/") and isinstance(val, set) and len(val) > 1:
+        per = {}
+        for v, r in runs.items():
+            h = r.get("cover", {}).get(k)
+            if isinstance(h, list) and h:
+                per.setdefault(h[0], []).append(v)
+        sig = "%s|transcript-differs-between-builds|%s" % (pid, k[len("digest/"):].split("/")[0])
+        if sig not in violations:
+            violations[sig] = {
+                "signature": sig,
+                "what": "observable results of section %s differ between builds: %s" % (k, "; ".join("%s: %s" % (",".join(vs), "%016x" % h) for h, vs in per.items())),
+                "case": "part=digest section=%s" % k,
+                "count": 1,
+                "variant": sorted(runs.keys())[0],
+                "variants": sorted(runs.keys()),
+            }
+        else:
+            violations[sig]["count"] += 1
+
 cover_out = {}
 for k, val in cover.items():
     if isinstance(val, set):
